@@ -16,6 +16,7 @@
 EXTENDS Parser, Json
 
 CONSTANTS MaxLen,          \* exhaustive sequences over the reduced alphabet up to this length
+          Deep,            \* TRUE: additionally every sequence of length MaxLen + 1 over the core alphabet Red4 (thorough tier)
           NShards, Shard   \* template families are sharded by operator index
 
 N == Len(TokenTable)
@@ -56,14 +57,20 @@ Shapes == { <<PA, LB, ONE, RB, PA>>, <<PA, LB, RB>>, <<DLB, RB>>, <<DLB, ONE, CO
 \* ---- reduced alphabet for the exhaustive part
 Red == << PA, DOT, ONE, LEN, Idx("t_keys"), SEL, Idx("t_has"), BAR, COMMA, EQ, PLUS, Idx("t_star"), Idx("t_eqeq"), Idx("t_and"), Idx("t_slashslash"),
           COLON, LP, RP, LB, RB, LC, RC, DLB, Idx("t_style") >>
+Red4 == << PA, DOT, ONE, LEN, SEL, BAR, COMMA, EQ, PLUS, LP, RP, LB, RB >>
+RECURSIVE SeqsFrom4(_,_)
+SeqsFrom4(pre, n) == IF n = 0 THEN {pre} ELSE UNION { SeqsFrom4(Append(pre, Red4[j]), n - 1) : j \in DOMAIN Red4 }
 RECURSIVE SeqsFrom(_,_)
 SeqsFrom(pre, n) == IF n = 0 THEN {pre} ELSE {pre} \cup UNION { SeqsFrom(Append(pre, Red[j]), n - 1) : j \in DOMAIN Red }
 
 \* ---- jobs: one state per job so that TLC workers share the work
 Jobs == [k : {"pair"}, i : {i \in BinIdx : i % NShards = Shard}] \cup [k : {"operand"}, i : NulIdx] \cup [k : {"prefix"}, i : PreIdx]
         \cup [k : {"assign"}, i : AsgIdx] \cup [k : {"shapes"}, i : {0}] \cup [k : {"exh"}, i : DOMAIN Red]
+        \cup (IF Deep THEN [k : {"deep"}, i : {(a - 1) * Len(Red4) + b : a \in DOMAIN Red4, b \in DOMAIN Red4}] ELSE {})
 SeqsOf(j) == CASE j.k = "pair" -> PairsOf(j.i) [] j.k = "operand" -> Operand(j.i) [] j.k = "prefix" -> Prefix(j.i)
                [] j.k = "assign" -> Assignable(j.i) [] j.k = "shapes" -> Shapes [] j.k = "exh" -> SeqsFrom(<<Red[j.i]>>, MaxLen - 1)
+               \* a deep job: the two leading tokens are fixed, the rest is exhaustive
+               [] j.k = "deep" -> SeqsFrom4(<<Red4[((j.i - 1) \div Len(Red4)) + 1], Red4[((j.i - 1) % Len(Red4)) + 1]>>, MaxLen - 1)
 
 ASSUME PrintT("@@" \o ToJson([k |-> "table", toks |-> TokenTable]))
 
@@ -82,6 +89,6 @@ ParenLaw == done /\ job.k = "pair" => \A b \in BinIdx :
    /\ P(<<LP>> \o Pair(a, b) \o <<RP>>) = r
    /\ P(<<LP, PA, RP, a, LP, ONE, RP, b, LP, DOT, RP>>) = r
    /\ (IF TokenTable[a].prec > TokenTable[b].prec THEN P(<<LP, PA, a, ONE, RP, b, DOT>>) ELSE P(<<PA, a, LP, ONE, b, DOT, RP>>)) = r
-RejectLaw == done /\ job.k = "exh" => \A s \in SeqsOf(job) : ~Balanced(Toks(s)) => P(s).status # "tree"
+RejectLaw == done /\ job.k \in {"exh", "deep"} => \A s \in SeqsOf(job) : ~Balanced(Toks(s)) => P(s).status # "tree"
 ArityLaw == done => \A s \in SeqsOf(job) : P(s).status = "tree" => ArityOK(P(s).tree)
 =============================================================================
